@@ -64,7 +64,10 @@ TNext ==
     /\ l' = l + 1 /\ UNCHANGED tid
     /\ LET e == Ev IN
        CASE e.op = "fit" -> Fit(e.rows) /\ PostOK(e) /\ StateOK
-         [] e.op = "partial_fit" -> PartialFit(e.rows, e.allg) /\ PostOK(e) /\ StateOK
+         [] e.op = "partial_fit" ->
+               /\ Check("geometry.cells_cover_history",
+                        (NP = "clusters" /\ fitted) => Len(e.allg) = Len(hist) + Len(e.rows))    \* k-means refit on every stored row
+               /\ PartialFit(e.rows, e.allg) /\ PostOK(e) /\ StateOK
          [] e.op = "add_arm" -> AddArm(e.arm, e.bin) /\ PostOK(e)
          [] e.op = "remove_arm" -> RemoveArm(e.arm) /\ PostOK(e)
          [] e.op = "query" ->
